@@ -476,11 +476,15 @@ var codeLineMenu = []string{"a", "", "```", "``` ", "````", "~~~", "~~~  ", " ``
 
 func codeContentLeaf(x *X, maxLines int) *ref.Block {
 	b := &ref.Block{Kind: ref.BFenced}
-	switch x.ChooseFree(3) {
+	switch x.ChooseFree(5) {
 	case 1:
 		b.Info = "go"
 	case 2:
 		b.Kind = ref.BIndented
+	case 3:
+		b.Info = "`a" // an info string with a backtick needs a tilde fence
+	case 4:
+		b.Info = "go`x"
 	}
 	for i := 0; i < maxLines; i++ {
 		k := x.ChooseFree(len(codeLineMenu) + 1)
